@@ -4,7 +4,7 @@ From V Require Import Crash.Storage Crash.StorageProofs Crash.Protocol Crash.Toy
   Crash.Refuted Crash.Progress.
 From Coq Require Import Lia.
 
-Definition cfE := mkCfg 2 4 false 0 RCut false true.
+Definition cfE := mkCfg 2 4 false 0 RSync false true.
 Definition opsE := [OVal 0 [1; 2; 3]; OPre 0 [9]; OVal 0 [4]; OPre 0 [8]; OFlush FTx 50;
                     OSyncStart; OSyncV 0; OSyncTx; OFlush FCm 60; OSyncC; OVal 0 [5; 5]; OPre 0 [7]; OFlush FTx 1000; OFlush (FVal 0) 100].
 Definition sE := get (run Hc (init Hc cfE 1) opsE) (init Hc cfE 1).
@@ -46,7 +46,7 @@ Example ex_backlog :
 Proof. split; [apply crash_os|]. eexists. split; [vm_compute; reflexivity|]. vm_compute. split; reflexivity. Qed.
 
 (* the repaired configuration has reachable states with a non-empty tree (premises of tree_ok) *)
-Definition cfR := mkCfg 2 4 false 0 RCut false true.
+Definition cfR := mkCfg 2 4 false 0 RSync false true.
 Definition sR := get (run Hc (init Hc cfR 1) opsE) (init Hc cfR 1).
 Example ex_repaired_reach :
   exists s, reach Hc cfR 1 s /\ c_prealloc cfR = false /\ 0 < c_thld cfR /\ c_ahtsync cfR = true /\ asize s = 3.
@@ -56,7 +56,7 @@ Proof.
   - vm_compute. repeat split; congruence.
 Qed.
 
-(* the configuration with the proposed durable ResetSize has reachable states and recoveries that go
+(* the configuration with the durable ResetSize (the code since 0b488aa) has reachable states and recoveries that go
    through the reset (premises of crash_safety_repaired) *)
 Example ex_durable_reset_reach :
   reach Hc cfD' 1 sD3' /\ c_prealloc cfD' = false /\ 0 < c_thld cfD' /\ c_ahtsync cfD' = true /\
